@@ -61,7 +61,7 @@ def explore_grammar(args):
         def body(W):
             W.globals["CALL_LIMIT"] = 0; W.globals["ERROR_DETAIL"] = False
             I = Interp(P, W, S)
-            vm = pegsym.build_vm(P, vm_rules)
+            vm = pegsym.build_vm(P, vm_rules, I)
             inp = SliceRef(VecObj(list(bs), "input"), 0, n, True)
             out = {"I": I}
             try:
